@@ -103,7 +103,7 @@ def run(run):
     fails, dis = [], []
     # (a) unique renaming
     cases = []
-    n_st = 400 if tier_q else 6000
+    n_st = 400 if tier_q else 20000
     for i in range(n_st + n_st // 6):
         t, tree = g.statement() if i < n_st else g.paren_case()
         hive_only = any(tree.get(k) for k in ("stored_as_textfile", "location", "row_format_serde", "row_format_delimited_fields_terminated_by")) if tree["_"] == "ASTCreateTableStatement" else False
@@ -154,11 +154,11 @@ def run(run):
     run.add_stream("unique renaming", 2 * len(cases), judged, [{"dialect": c[0], "text": c[1][:200]} for c in cases[:: max(1, len(cases) // 3)][:3]])
     # (b) stray tokens
     sreqs, smeta = [], []
-    for ci, (d, t, marks) in enumerate(cases[: (120 if tier_q else 2500)] + cases[n_st:][: (60 if tier_q else 1000)]):
+    for ci, (d, t, marks) in enumerate(cases[: (120 if tier_q else 8000)] + cases[n_st:][: (60 if tier_q else 3000)]):
         ws = t.split(" ")
         after_close = [i + 1 for i, w in enumerate(ws) if w == ")"]
         chosen = run.rng.sample(range(len(ws) + 1), min(len(ws) + 1, 3 if tier_q else 8)) + run.rng.sample(after_close, min(len(after_close), 2 if tier_q else 4))
-        if ci >= (120 if tier_q else 2500):
+        if ci >= (120 if tier_q else 8000):
             chosen += after_close[-3:]              # bracketed SELECTs: between and behind the closing brackets
         for pos in chosen:
             stray = run.rng.choice(["zq9", "'zq9'", "979797", "`zq9`"])
